@@ -1,4 +1,6 @@
 """C14 — binary floats convert to decimals exactly (the f32/f64 -> decimal direction; see MANIFEST level_note for what is outside)."""
+import math
+import re
 import struct
 import sys
 from fractions import Fraction
@@ -63,9 +65,195 @@ def run_float(ty, exp, entry):
     return run
 
 
+def run_roundtrip(exp, tz=None, sg_fixed=None):
+    """to_f64(from_f64(f)) == f for all f64 with this exponent field, RELATIVE to two contracts:
+    std's str::parse::<f64> returns the float nearest to the denoted value, and BigUint::to_f64 is exact on representable integers.
+    What is decided: the decimal handed to those primitives is f itself, or f truncated by less than a quarter of its ulp."""
+    ebits, mbits = FMT['f64'][:2]
+    bias = 2 ** (ebits - 1) - 1
+    sign, frac = z3.Ints('sign frac')
+
+    def run(m):
+        m.witness = {'sign': sign, 'frac': frac}
+        m.assume(z3.And(sign >= 0, sign <= 1, frac >= 0, frac < 2 ** mbits))
+        if sg_fixed is not None:
+            m.assume(sign == sg_fixed)
+        if tz is not None:
+            # shard of the class: fraction fields with exactly tz trailing zero bits (tz == mbits: the zero fraction)
+            if tz >= mbits:
+                m.assume(frac == 0)
+            else:
+                odd = z3.Int('frac_odd')
+                m.assume(z3.And(odd >= 0, frac == odd * 2 ** (tz + 1) + 2 ** tz))
+        sg = 1 if m.branch_bool(sign == 1) else 0
+        m.assume(sign == sg)
+        f = S.FloatV('f64', sg, exp, frac)
+        S.BITS_MODE[:] = ['model', 3]
+        S.DIGIT_BOUND[0] = 60
+        r = m.call('<BigDecimal as TryFrom<f64>>::try_from', [f], ['f64'], 'Result<BigDecimal, ParseBigDecimalError>')
+        if r.variant != 'Ok':
+            return [('finite floats convert', True)]
+        d = r.fields[0]
+        back = m.call('<BigDecimal as num_traits::ToPrimitive>::to_f64', [Ref([d], 0)], ['&BigDecimal'], 'Option<f64>')
+        if back.variant != 'Some':
+            return [('to_f64 of a converted float is Some', True)]
+        v = back.fields[0]
+        if exp == 0:
+            mant, p2 = frac, 1 - bias - mbits
+        else:
+            mant, p2 = frac + 2 ** mbits, exp - bias - mbits
+        if isinstance(v, float):
+            m.labels.add('roundtrip: zero')
+            return [('only +-0 comes back as the literal 0.0', z3.Or(mant != 0, z3.BoolVal(v != 0.0)))]
+        if isinstance(v, S.BigToF64):
+            # contract: exact when the integer is representable; here it must BE the float's integer value
+            m.labels.add('roundtrip: integer')
+            same = (v.x == mant * 2 ** p2) if p2 >= 0 else (v.x * 2 ** (-p2) == mant)
+            return [('the integer handed to BigUint::to_f64 is the float itself', z3.Not(same)), ('sign restored', z3.BoolVal(v.neg != bool(sg)))]
+        if isinstance(v, S.ParsedF64):
+            m.labels.add('roundtrip: parsed text')
+            items = v.items
+            # text is <digits>e<exp>: read it back numerically
+            if 101 not in [c for c in items if isinstance(c, int)]:
+                return [('text handed to the parser has the form <digits>e<exp>', True)]
+            k = [i for i, c in enumerate(items) if isinstance(c, int) and c == 101][0]
+            digs, etxt = items[:k], items[k + 1:]
+            if not all(isinstance(c, int) for c in etxt) or not digs:
+                return [('exponent is concrete text', True)]
+            e10 = int(''.join(chr(c) for c in etxt))
+            val = None
+            try:
+                ids = tuple(z3.simplify(c - 48).get_id() for c in digs)
+                val = getattr(m, 'radix_origin', {}).get(ids)       # the integer the engine rendered into exactly these digits
+            except Exception:
+                val = None
+            if val is None:
+                val = 0
+                for c in digs:
+                    val = val * 10 + (c - 48)
+            # |f| = mant * 2^p2 ; parsed value = val * 10^e10 ; need 0 <= |f| - val*10^e10 < 2^(p2-2)  (a quarter ulp: the nearest float is then f)
+            # scale everything to integers
+            a2, a10 = max(0, -(p2 - 2)), max(0, -e10)
+            F = mant * 2 ** (p2 + a2) * 10 ** a10 if p2 + a2 >= 0 else None
+            V = val * 10 ** (e10 + a10) * 2 ** a2
+            Q = 2 ** (p2 - 2 + a2) * 10 ** a10
+            return [('parsed text is below the float by less than a quarter ulp, never above', z3.Not(z3.And(F - V >= 0, F - V < Q))),
+                    ('sign restored', z3.BoolVal(v.neg != bool(sg)))]
+        if isinstance(v, S.F64Quot) and isinstance(v.a, S.IntToF64) and isinstance(v.b, float):
+            # `n as f64 / 10^k`: equals f when the quotient is exact in the reals (it is f) AND the first rounding is
+            # exact, i.e. n is representable (a sufficient condition; a counterexample is decided by native replay)
+            m.labels.add('roundtrip: machine integer over power of ten')
+            ks = [k for k in range(0, 23) if float(10 ** k) == v.b]
+            if not ks:
+                return [('divisor is an exact power of ten', True)]
+            n = v.a.x
+            val_eq = (n * 2 ** (-p2) == mant * 10 ** ks[0]) if p2 < 0 else (n == mant * 2 ** p2 * 10 ** ks[0])
+            repres = z3.Or([n < 2 ** 53] + [z3.And(n < 2 ** (53 + j), n % 2 ** j == 0) for j in range(1, 12)])
+            return [('n as f64 / 10^k: value is f and n is exactly representable', z3.Not(z3.And(val_eq, repres))), ('sign restored', z3.BoolVal((v.neg != v.a.neg) != bool(sg)))]
+        return [('to_f64 goes through an exact primitive (parse or BigUint::to_f64)', True)]
+    return run
+
+
+def run_to_f64(D, scale, form):
+    """plumbing of to_f64 on an ARBITRARY decimal with D significant digits (symbolic) at a concrete scale: what is
+    handed to the float primitives is the value itself or the value truncated to >= 25 digits (relative error < 1e-24),
+    the power of ten matches, the sign is restored, infinities/zeros only where the magnitude is out of range"""
+    x, sign = z3.Ints('x sign')
+
+    def run(m):
+        m.witness = {'x': x, 'sign': sign}
+        m.assume(z3.And(sign >= 0, sign <= 1))
+        if D == 0:
+            m.assume(x == 0)
+        else:
+            m.assume(z3.And(x >= 10 ** (D - 1), x < 10 ** D))
+        sg = 1 if m.branch_bool(sign == 1) else 0
+        m.assume(sign == sg)
+        S.BITS_MODE[:] = ['model', 6]
+        S.DIGIT_BOUND[0] = 90
+        S.FLOAT_TOKEN_MODE[0] = 'always'
+        # the crate's own free fn `powi` shadows std's inherent f64::powi in name resolution: install the token summary as an override
+        m.overrides.append((re.compile(r'^(?:impl_num::)?powi$|^(?:std::|core::)?f64::<impl f64>::powi$'), S.f64_powi))
+        sx = -x if sg else x
+        if form == 'ref':
+            back = m.call("<BigDecimalRef<'_> as num_traits::ToPrimitive>::to_f64", [Ref([C.decref(m, sx, scale)], 0)], ["&BigDecimalRef<'_>"], 'Option<f64>')
+        else:
+            back = m.call('<BigDecimal as num_traits::ToPrimitive>::to_f64', [Ref([C.dec(sx, scale)], 0)], ['&BigDecimal'], 'Option<f64>')
+        if back.variant != 'Some':
+            return [('to_f64 returns Some', True)]
+        v = back.fields[0]
+        neg_expected = bool(sg) and D > 0
+        hi10 = D - scale            # 10^(hi10-1) <= |value| < 10^hi10
+
+        def trunc_ok(xp, t):
+            # xp must be floor(x / 10^t), t a non-negative multiple of 19, and keep >= 25 digits when anything was cut
+            if t < 0 or t % 19 != 0:
+                return z3.BoolVal(False)
+            if t == 0:
+                return xp == x
+            return z3.And(xp * 10 ** t <= x, x < (xp + 1) * 10 ** t, xp >= 10 ** 24)
+        if isinstance(v, float):
+            if v == 0.0:
+                m.labels.add('to_f64: zero')
+                ok = (D == 0 and math.copysign(1.0, v) > 0) or (D > 0 and hi10 <= -323 and (math.copysign(1.0, v) < 0) == neg_expected)
+                return [('a zero result only for zero or for magnitudes below the smallest subnormal, with the sign', z3.BoolVal(not ok))]
+            if v in (float('inf'), float('-inf')):
+                m.labels.add('to_f64: infinity')
+                ok = D > 0 and hi10 - 1 >= 309 and (v < 0) == neg_expected
+                return [('an infinite result only for magnitudes >= 1e309, with the sign', z3.BoolVal(not ok))]
+            return [('concrete float result for a symbolic decimal', True)]
+        if isinstance(v, S.BigToF64):
+            m.labels.add('to_f64: integer')
+            return [('scale 0: the integer itself goes to BigUint::to_f64', z3.Or(v.x != x, z3.BoolVal(scale != 0))), ('sign restored', z3.BoolVal(v.neg != neg_expected))]
+        if isinstance(v, S.F64Prod):
+            m.labels.add('to_f64: integer times power of ten')
+            a, b = v.a, v.b
+            if not (isinstance(a, S.BigToF64) and isinstance(b, S.PowiF64) and b.base == 10.0 and not is_sym(b.k)):
+                return [('product of BigUint::to_f64 and powi(10.0, k)', True)]
+            t = scale + b.k           # value = x * 10^-scale = (x / 10^t) * 10^k
+            return [('truncated integer times the matching power of ten', z3.Not(trunc_ok(a.x, t))), ('exponent non-negative on this branch', z3.BoolVal(b.k < 0)),
+                    ('sign restored', z3.BoolVal((a.neg != v.neg) != neg_expected))]
+        if isinstance(v, S.ParsedF64):
+            m.labels.add('to_f64: parsed text')
+            items = v.items
+            if 101 not in [c for c in items if isinstance(c, int)]:
+                return [('text handed to the parser has the form <digits>e<exp>', True)]
+            k = [i for i, c in enumerate(items) if isinstance(c, int) and c == 101][0]
+            digs, etxt = items[:k], items[k + 1:]
+            if not all(isinstance(c, int) for c in etxt) or not digs:
+                return [('exponent is concrete text', True)]
+            e10 = int(''.join(chr(c) for c in etxt))
+            try:
+                val = getattr(m, 'radix_origin', {}).get(tuple(z3.simplify(c - 48).get_id() for c in digs))
+            except Exception:
+                val = None
+            if val is None:
+                val = 0
+                for c in digs:
+                    val = val * 10 + (c - 48)
+            t = scale + e10
+            return [('text is the integer truncated to >= 25 digits with the matching exponent', z3.Not(trunc_ok(val, t))), ('exponent negative on this branch', z3.BoolVal(e10 >= 0)),
+                    ('sign restored', z3.BoolVal(v.neg != neg_expected))]
+        if isinstance(v, S.F64Quot) and isinstance(v.a, S.IntToF64) and isinstance(v.b, float):
+            m.labels.add('to_f64: machine integer over power of ten')
+            ok_div = 0 <= scale <= 22 and float(10 ** scale) == v.b
+            return [('n as f64 / 10^scale with n the integer itself (two roundings: within the 2^-48 tolerance)', z3.Or(v.a.x != x, z3.BoolVal(not ok_div))),
+                    ('sign restored', z3.BoolVal((v.neg != v.a.neg) != neg_expected))]
+        return [('to_f64 goes through a float primitive', True)]
+    return run
+
+
 def worker(t):
     prog = H.get_program()
+    if t.get('kind') == 'to_f64':
+        S.BITS_MODE[:] = ['uf', 128]
+        try:
+            return H.explore_task(prog, run_to_f64(t['D'], t['scale'], t['form']), task=t, loop_bound=3000, timeout_ms=60000, deadline_s=600)
+        finally:
+            S.FLOAT_TOKEN_MODE[0] = 'auto'
     S.BITS_MODE[:] = ['uf', 128]
+    if t.get('kind') == 'roundtrip':
+        return H.explore_task(prog, run_roundtrip(t['exp'], t.get('tz'), t.get('sign')), task=t, loop_bound=3000, timeout_ms=60000, deadline_s=900)
     return H.explore_task(prog, run_float(t['ty'], t['exp'], t['entry']), task=t, loop_bound=3000, timeout_ms=60000, deadline_s=900)
 
 
@@ -78,8 +266,14 @@ def confirm(v):
     t, mdl = v['task'], v['model']
     if not mdl:
         return False, 'no model'
+    if t.get('kind') == 'to_f64':
+        x = -mdl['x'] if mdl['sign'] else mdl['x']
+        out = H.replay_lines(['to_prim\t%s\tf64\t%s' % (t['form'], H.dec_str(x, t['scale']))])[0]
+        return to_f64_bad(x, t['scale'], out), out
     b = bits_of(t, mdl)
     out = H.replay_lines(['from_float\t%s\t%s\t0x%x' % (t['ty'], t['entry'], b)])[0]
+    if t.get('kind') == 'roundtrip':
+        return roundtrip_bad(t['ty'], b, out), out
     fmt = FMT[t['ty']]
     f = struct.unpack(fmt[2], struct.pack(fmt[3], b))[0]
     if f != f or f in (float('inf'), float('-inf')):
@@ -88,6 +282,78 @@ def confirm(v):
         return True, out
     ri, rs = H.parse_dec(out)
     return Fraction(ri) * Fraction(10) ** (-rs) != Fraction(f), out
+
+
+def to_f64_bad(x, scale, out):
+    """native to_f64 of x*10^-scale printed as bits: wrong sign, an infinity/zero for an in-range magnitude, or a
+    relative error above 2^-48 (normal range) / more than one subnormal step (below it)"""
+    if out in ('None', 'Err') or out.startswith('PANIC') or not out.startswith('0x'):
+        return True
+    g = struct.unpack('<d', struct.pack('<Q', int(out, 16)))[0]
+    if x == 0:
+        return g != 0.0 or math.copysign(1.0, g) < 0
+    if (math.copysign(1.0, g) < 0) != (x < 0):
+        return True
+    D = len(str(abs(x)))
+    hi10 = D - scale                # 10^(hi10-1) <= |value| < 10^hi10
+    if g in (float('inf'), float('-inf')):
+        return hi10 <= 308
+    if g == 0.0:
+        return hi10 - 1 >= -323
+    if abs(scale) > 5000:
+        return True                  # a finite non-zero float cannot be right for such magnitudes
+    v = Fraction(abs(x)) * Fraction(10) ** (-scale)
+    G = Fraction(abs(g))
+    step = Fraction(1, 2 ** 1074)
+    if v < Fraction(1, 2 ** 1022):
+        return abs(G - v) > step
+    return abs(G - v) > v / 2 ** 48
+
+
+def to_f64_probe(rng, n, rep):
+    cases = []
+    for i in range(n):
+        D = rng.choice([1, 2, 15, 16, 17, 19, 20, 24, 25, 26, 39, 44, 45, 60, 100, rng.randint(1, 120)])
+        x = rng.choice([10 ** (D - 1), 10 ** D - 1, rng.randint(10 ** (D - 1), 10 ** D - 1), rng.randint(10 ** (D - 1), 10 ** D - 1)]) * rng.choice([1, -1])
+        s = rng.choice([0, 1, -1, 5, 22, 23, 25, -22, -23, 300, 308, 309, 324, 330, 400, -290, -308, -309, -330, D, D - 1, D + 300, D - 309, D + 323, D + 324,
+                        2 ** 31 - 1, 2 ** 31, 2 ** 31 + 19, 2 ** 31 + 57, -2 ** 31, -2 ** 31 - 1, 2 ** 40, -2 ** 40, rng.randint(-340, 340), rng.randint(-340, 340)])
+        cases.append((x, s, rng.choice(['val', 'ref'])))
+    cases.append((0, 0, 'val'))
+    cases.append((0, -5, 'ref'))
+    outs = H.replay_lines(['to_prim\t%s\tf64\t%s' % (f, H.dec_str(x, s)) for x, s, f in cases])
+    for (x, s, f), out in zip(cases, outs):
+        if to_f64_bad(x, s, out):
+            H.probe_violation(rep, PROP, 'native to_f64 of %s gives %s' % (H.dec_str(x, s), out), {'kind': 'to_f64', 'D': len(str(abs(x))) if x else 0, 'scale': s, 'form': f, 'entry': 'to_f64'},
+                              {'x': abs(x), 'sign': 1 if x < 0 else 0}, out)
+    return len(cases)
+
+
+def roundtrip_bad(ty, b, out):
+    """native to_fXX(from_fXX(bits)) must give the same bits back (-0.0 comes back as +0.0: the decimal zero has no sign)"""
+    ebits, mbits = FMT[ty][:2]
+    if (b >> mbits) & (2 ** ebits - 1) == 2 ** ebits - 1:
+        return out != 'Err'
+    if b & (2 ** (ebits + mbits) - 1) == 0:
+        return out != '0x0'
+    return out != '0x%x' % b
+
+
+def roundtrip_probe(rng, n, rep):
+    """native probe of the return trip on concrete floats of every magnitude (also those outside the symbolic bound)"""
+    cases = []
+    for ty in ('f64', 'f32'):
+        ebits, mbits = FMT[ty][:2]
+        for i in range(n):
+            e = rng.choice([0, 1, 2 ** (ebits - 1) - 1, 2 ** (ebits - 1) - 5, 2 ** ebits - 2, rng.randint(0, 2 ** ebits - 2), rng.randint(0, 2 ** ebits - 2)])
+            fr = rng.choice([0, 1, 2 ** mbits - 1, 2 ** (mbits - 1), rng.randint(0, 2 ** mbits - 1), rng.randint(0, 2 ** mbits - 1), rng.randint(0, 2 ** mbits - 1)])
+            cases.append((ty, (rng.randint(0, 1) << (ebits + mbits)) | (e << mbits) | fr, e))
+    outs = H.replay_lines(['from_float\t%s\troundtrip\t0x%x' % (ty, b) for ty, b, e in cases])
+    for (ty, b, e), out in zip(cases, outs):
+        if roundtrip_bad(ty, b, out):
+            ebits, mbits = FMT[ty][:2]
+            H.probe_violation(rep, PROP, 'native to_%s(from_%s(0x%x)) gives %s' % (ty, ty, b, out), {'kind': 'roundtrip', 'ty': ty, 'exp': e, 'entry': 'roundtrip'},
+                              {'sign': b >> (ebits + mbits), 'frac': b & (2 ** mbits - 1)}, out)
+    return len(cases)
 
 
 def validate(prog, rng, n, rep=None):
@@ -150,13 +416,51 @@ def main(tier):
         tasks.append({'ty': 'f32', 'exp': e, 'entry': 'from_primitive'})
     for e in (0, 2047):
         tasks.append({'ty': 'f64', 'exp': e, 'entry': 'try_from'})
-    rep.required_labels = {'nan/inf rejected', 'subnormal/zero', 'normal'}
-    rep.bounds = {'f32': 'all 2^32 bit patterns: every exponent field 0..255, sign and 23 fraction bits symbolic', 'f64': '%d of 2048 exponent fields (quick: every field >= 1075, boundaries and a seeded sample below; thorough: all), sign and 52 fraction bits symbolic' % len(f64_exps)}
+    # return trip to_f64(from_f64(f)) == f, relative to the parse / BigUint::to_f64 contracts
+    # f64 only (to_f32 goes through a different, lossy path: outside). Exponent fields >= 1075 (integers >= 2^52) take one
+    # task each; below that a class is sharded by sign and by the number of trailing zero bits of the fraction (53 x 2 tasks).
+    # Measured: classes >= 900 decide in 20-60 s of 16 cores each on an idle machine (920 went unknown under load: only >= 950 is registered); below ~700 z3 starts answering unknown (400-digit
+    # dividends through up to 40 chained divisions): those classes are outside the symbolic claim and covered by the native probe.
+    for e in range(1075, 2047):
+        tasks.append({'kind': 'roundtrip', 'ty': 'f64', 'exp': e, 'entry': 'roundtrip'})
+    if tier == 'quick':
+        rt_sharded = set(range(1064, 1075)) | {1023, 1019} | set(rng.sample(range(1000, 1064), 1))
+    else:
+        rt_sharded = set(range(1000, 1075)) | {950}
+    for e in sorted(rt_sharded):
+        for tz in range(53):
+            for sg in (0, 1):
+                tasks.append({'kind': 'roundtrip', 'ty': 'f64', 'exp': e, 'tz': tz, 'sign': sg, 'entry': 'roundtrip'})
+    for sg in (0, 1):
+        tasks.append({'kind': 'roundtrip', 'ty': 'f64', 'exp': 0, 'tz': 52, 'sign': sg, 'entry': 'roundtrip'})
+    # to_f64 of ARBITRARY decimals: D symbolic digits at a concrete scale, both receiver forms (plumbing up to the float primitives)
+    Ds = [0, 1, 2, 15, 16, 17, 18, 19, 20, 24, 25, 26, 27, 43, 44, 45, 46, 63, 64, 65, 82] if tier == 'quick' else list(range(0, 86))
+    I31 = 2 ** 31
+    scales = sorted(set([0, 1, 2, 5, 18, 19, 20, 22, 23, 25, 38, 44, 100, 290, 308, 309, 323, 324, 325, 330, 400, 1000, -1, -2, -18, -19, -20, -22, -23, -25, -38, -100, -290, -307, -308, -309, -310, -400,
+                         I31 - 39, I31 - 20, I31 - 2, I31 - 1, I31, I31 + 1, I31 + 18, I31 + 19, I31 + 20, I31 + 37, I31 + 38, I31 + 39, I31 + 57, -I31 + 1, -I31, -I31 - 1, -I31 - 20, 2 ** 40, -2 ** 40, 2 ** 62, -2 ** 62]
+                        + ([rng.randint(-400, 400) for _ in range(10)] if tier == 'quick' else list(range(-340, 341, 3)))))
+    for D in Ds:
+        for sc in scales:
+            tasks.append({'kind': 'to_f64', 'D': D, 'scale': sc, 'form': 'val' if (D + sc) % 2 == 0 or tier == 'quick' and False else 'ref', 'entry': 'to_f64'})
+            if tier != 'quick' or sc in (0, 1, -1, I31, -I31):
+                tasks.append({'kind': 'to_f64', 'D': D, 'scale': sc, 'form': 'ref' if (D + sc) % 2 == 0 else 'val', 'entry': 'to_f64'})
+    rep.required_labels = {'nan/inf rejected', 'subnormal/zero', 'normal', 'roundtrip: integer', 'roundtrip: parsed text', 'roundtrip: zero',
+                           'to_f64: zero', 'to_f64: infinity', 'to_f64: integer', 'to_f64: integer times power of ten', 'to_f64: parsed text'}
+    rep.bounds = {'f32': 'all 2^32 bit patterns: every exponent field 0..255, sign and 23 fraction bits symbolic', 'f64': '%d of 2048 exponent fields (quick: every field >= 1075, boundaries and a seeded sample below; thorough: all), sign and 52 fraction bits symbolic' % len(f64_exps),
+                  'to_f64_arbitrary': 'every decimal with D significant digits, D in %s, either sign, at each scale in %s, through BigDecimal::to_f64 or BigDecimalRef::to_f64' % (Ds, scales),
+                  'return_trip_f64': 'every exponent field 1075..2046 (all 2^53 floats of each), fields %s sharded by sign and trailing-zero count (all 2^53 floats of each), and +-0' % sorted(rt_sharded)}
     rep.assumptions = ['f32/f64::to_bits and classify follow IEEE-754 (modelled on the bit pattern)', 'BigUint::pow / from_slice / multiplication are exact (num-bigint)']
-    rep.outside = ['decimal -> f64 direction (to_f64 round trip and error bounds): depends on correctly rounded str::parse::<f64>/powi, no linear encoding (DESIGN section 5/C14)',
+    rep.assumptions += ['return trip: str::parse::<f64> returns the float nearest to the decimal text; BigUint::to_f64 is exact on integers that are representable (both std / num-bigint contracts)',
+                        'digit strings of a rendered integer are introduced as fresh digits with the defining sum; solver queries that do not mention the digits may be decided without that definition (conservative extension)']
+    rep.assumptions += ['to_f64 of an arbitrary decimal is decided up to the float primitives: BigUint::to_f64 (error <= 2^-53 relative), str::parse::<f64> (correctly rounded) and f * powi(10.0, k) (IEEE product of two roundings; std documents no precision for powi) are tokens; the 2^-48 tolerance of the property is what absorbs their error and is NOT derived here, only probed natively']
+    rep.outside = ['the numerical error of f * powi(10.0, k) in to_f64 (native probe only); what IS decided for arbitrary decimals: the integer handed on is the value or its truncation to >= 25 digits, the power of ten matches, the sign is restored, zero/infinity only out of range',
+                   'return trip for f64 exponent fields below 900 other than those listed (|f| < 2^-123) and for subnormals: z3 answers unknown on the 400-767 digit dividends; covered by the native probe only',
+                   'return trip through to_f32 (native probe only)',
                    'f64 exponent fields not listed in the quick tier']
     sys.stderr.write('[C14] %d tasks\n' % len(tasks))
     rep.validated, rep.validation_mismatches = validate(prog, rng, 300 if tier == 'quick' else 3000, rep)
+    rep.extra['native_roundtrip_probes'] = roundtrip_probe(rng, 400 if tier == 'quick' else 5000, rep)
+    rep.extra['native_to_f64_probes'] = to_f64_probe(rng, 600 if tier == 'quick' else 8000, rep)
     results = H.run_parallel(tasks, worker, progress=200)
     rep.add(results)
     for r in results:
